@@ -37,9 +37,17 @@ ASSUMPTIONS = [
     'after a divergence the long-lived parser is replaced so that the history continues',
 ]
 FLOORS = {
-    'expr:parse-error': (0.10, 'expr:case'),
-    'expr:evaluated': (0.25, 'expr:case'),
-    'expr:eval-error': (0.08, 'expr:case'),
+    'grammar:evaluated': (0.35, 'expr:src-grammar'),
+    'grammar:eval-error': (0.10, 'expr:src-grammar'),
+    'calls:evaluated': (0.20, 'expr:src-calls'),
+    'calls:eval-error': (0.10, 'expr:src-calls'),
+    'callgrid:evaluated': (0.10, 'expr:src-callgrid'),
+    'callgrid:eval-error': (0.10, 'expr:src-callgrid'),
+    'opgrid:evaluated': (0.10, 'expr:src-opgrid'),
+    'opgrid:eval-error': (0.10, 'expr:src-opgrid'),
+    'mutated:parse-error': (0.40, 'expr:src-mutated'),
+    'mutated:evaluated': (0.05, 'expr:src-mutated'),
+    'random:parse-error': (0.50, 'expr:src-random'),
     'reuse:ok-after-fail': (0.50, 'reuse:history'),
 }
 
@@ -184,7 +192,7 @@ def _esc(exc, s, phase):
     if isinstance(exc, RecursionError):
         if X.nesting_depth(s) > 30:
             return None, 'resource:deep-recursion'
-    return Disc(escape_bucket('C03', exc) + '/' + phase, 'ElementPathError or a value', repr(exc)[:300], repr(s)), 'escape'
+    return Disc(escape_bucket('C03', exc), 'ElementPathError or a value', repr(exc)[:300], f'{phase}: {s!r}'), 'escape'
 
 
 def judge_string(ver, s, ctxkind, api, rec=None, source='?'):
@@ -205,7 +213,7 @@ def judge_string(ver, s, ctxkind, api, rec=None, source='?'):
         outcome = 'parse-error'
         code = e.code
         if not code or not CODE_RE.match(str(code)):
-            discs.append(Disc(escape_bucket('C03', e).replace('/escape/', '/no-code/') + '/parse', 'error code err:XXXXnnnn',
+            discs.append(Disc(escape_bucket('C03', e).replace('/escape/', '/no-code/'), 'error code err:XXXXnnnn',
                               repr(code), f'{s!r}: {e}'))
         else:
             classes.append('expr:code-' + str(code).split(':')[-1])
@@ -257,6 +265,7 @@ def judge_string(ver, s, ctxkind, api, rec=None, source='?'):
             pass
     if rec is not None:
         classes.append('expr:' + str(outcome))
+        classes.append(f'{source}:{outcome}')
         classes.append(f'expr:ctx-{ctxkind}')
         classes.append(f'expr:api-{api}')
         nontrivial = outcome in ('parse-error', 'eval-error', 'escape') or len(set(re.findall(
@@ -312,19 +321,22 @@ def _state_problems(p):
 
 
 def _attr_diff(p, fresh):
-    """instance attributes of the long-lived parser that differ from a fresh instance"""
+    """attributes of the long-lived parser whose value differs from that of a fresh instance (an instance attribute that
+    merely shadows an equal class attribute is no difference)"""
     skip = {'tokens', 'token', 'next_token', 'next_match', '_start_token', 'source'}
-    d1 = {k: v for k, v in getattr(p, '__dict__', {}).items() if k not in skip}
-    d2 = {k: v for k, v in getattr(fresh, '__dict__', {}).items() if k not in skip}
+    keys = (set(getattr(p, '__dict__', {})) | set(getattr(fresh, '__dict__', {}))) - skip
+    missing = object()
     diff = []
-    for k in sorted(set(d1) | set(d2)):
-        if k not in d1 or k not in d2:
-            diff.append(k)
+    for k in sorted(keys):
+        v1, v2 = getattr(p, k, missing), getattr(fresh, k, missing)
+        if v1 is missing or v2 is missing:
+            if v1 is not v2:
+                diff.append(k)
             continue
         try:
-            same = d1[k] == d2[k]
+            same = v1 == v2
         except Exception:
-            same = d1[k] is d2[k]
+            same = v1 is v2
         if not same:
             diff.append(k)
     return diff
@@ -336,6 +348,7 @@ def judge_reuse(case, rec=None):
     long = new_parser(ver)
     failed_before = ok_after_fail = False
     n_fail = n_ok = resync = 0
+    leaked = set()
     for i, s in enumerate(case['steps']):
         got = _parse_outcome(long, s)
         fresh = new_parser(ver)
@@ -357,14 +370,16 @@ def judge_reuse(case, rec=None):
             cause = ('attr:' + '+'.join(attrs)) if attrs else 'unknown'
             discs.append(Disc(f'C03/reuse/outcome/{cause}/{kind}/{ver}', want, got, f'step {i} {s!r} after {case["steps"][:i]!r}'))
             diverged = True
-        elif attrs:
+        elif attrs and tuple(attrs) not in leaked:
+            # state left behind by this parse; the parser is kept so that the next steps show the consequence
+            leaked.add(tuple(attrs))
             discs.append(Disc(f'C03/reuse/leak/attr:{"+".join(attrs)}/{ver}', 'instance attributes as after __init__', attrs,
                               f'step {i} {s!r} after {case["steps"][:i]!r}'))
-            diverged = True
         if want[0] in ('error', 'exc'):
             failed_before = True
         if diverged:
             long = new_parser(ver)
+            leaked = set()
             resync += 1
     if rec is not None:
         classes = ['reuse:history', f'reuse:ver-{ver}']
@@ -382,6 +397,10 @@ def judge_reuse(case, rec=None):
 # --------------------------------------------------------------------------
 # strategies
 # --------------------------------------------------------------------------
+EXHAUSTIVE_NOTE = ('sub-checks callgrid and opgrid are complete enumerations: every registered function of a parser version x '
+                   'every legal arity <= 2 x every combination of 11-20 representative arguments (3 arguments over 6-8 values), '
+                   'and every operator form of the version x every combination of 14-25 representative operands, each '
+                   'evaluated on the element context')
 EXCLUDED_FUNCTIONS = {'doc', 'doc-available', 'collection', 'uri-collection', 'unparsed-text', 'unparsed-text-lines',
                       'unparsed-text-available', 'json-doc', 'transform', 'load-xquery-module', 'environment-variable',
                       'available-environment-variables', 'trace'}
@@ -421,6 +440,8 @@ def function_names(ver):
                 continue
             ns = getattr(cls, 'namespace', None)
             pfx = rev.get(ns)
+            if 'constructor' in str(cls.label) and pfx is None:
+                pfx = 'xs'
             name = sym if (pfx in (None, 'fn') or ver == '1.0') else f'{pfx}:{sym}'
             out.append((name, cls.nargs))
         v = _CACHE[key] = sorted(set((n, repr(a)) for n, a in out))
@@ -464,6 +485,81 @@ def call_string(draw, ver, depth=1):
     elif w == 6 and ver >= '3.0' and n:
         s = f'{name}({", ".join(["?"] + args[1:])})({args[0]})'
     return s
+
+
+GRID_ARGS = ["()", "1", "-1.5", "1e300", "xs:double('NaN')", "'a'", "''", "'2001-01-01'", "(1, 2)", ".", "a", "@a", "true()",
+             "xs:date('2001-01-01')", "xs:dayTimeDuration('PT1S')", "xs:QName('p:a')", "xs:untypedAtomic('x')"]
+GRID_ARGS_30 = ["abs#1"]
+GRID_ARGS_31 = ["map{'a':1}", "[1, 'b']"]
+
+
+def call_grid(ver):
+    """complete grid: every registered function x every legal arity <= 2 x every combination of GRID_ARGS"""
+    import itertools
+    pool = GRID_ARGS + (GRID_ARGS_30 if ver >= '3.0' else []) + (GRID_ARGS_31 if ver >= '3.1' else [])
+    if ver == '1.0':
+        pool = [a for a in pool if not a.startswith('xs:') and a not in ('()', '(1, 2)', '1e300')]
+    for name, nargs_r in function_names(ver):
+        nargs = eval(nargs_r)
+        if nargs is None:
+            lo, hi = 1, 2
+        elif isinstance(nargs, int):
+            lo = hi = nargs
+        else:
+            lo, hi = nargs[0], (nargs[1] if nargs[1] is not None else 2)
+        for n in range(lo, min(hi, 2) + 1):
+            for args in itertools.product(pool, repeat=n):
+                yield f'{name}({", ".join(args)})'
+        if lo <= 3 <= hi and ver != '1.0':
+            small = ["()", "1", "'a'", ".", "xs:untypedAtomic('x')", "(1, 2)"] + (["abs#1"] if ver >= '3.0' else []) + \
+                (["map{'a':1}"] if ver >= '3.1' else [])
+            for args in itertools.product(small, repeat=3):
+                yield f'{name}({", ".join(args)})'
+
+
+OP_POOL = ["0", "1", "-1", "0.0", "1.5", "0e0", "1e300", "xs:double('NaN')", "xs:double('INF')", "()", "(1, 2)", "'a'", "''", "a",
+           "@a", ".", "true()", "xs:date('2001-01-01')", "xs:dayTimeDuration('PT1S')", "xs:yearMonthDuration('P1Y')",
+           "xs:untypedAtomic('x')", "xs:QName('p:a')"]
+OP_POOL_10 = ["0", "1", "-1", "0.0", "1.5", "'a'", "''", "a", "@a", ".", "true()", "1 div 0", "0 div 0", "//comment()"]
+
+
+def op_grid(ver):
+    """complete grid: every operator of the version x every combination of representative operands"""
+    import itertools
+    pool = OP_POOL_10 if ver == '1.0' else OP_POOL + (["abs#1"] if ver >= '3.0' else []) + (["map{1:2}", "[1]"] if ver >= '3.1' else [])
+    ops = sorted(X.BINOPS[ver]) + ['/', '//']
+    for op in ops:
+        for a, b in itertools.product(pool, repeat=2):
+            yield f'({a}) {op} ({b})'
+    for a in pool:
+        yield f'-({a})'
+        yield f'({a})[1]'
+        yield f'a[{a}]'
+        yield f'({a})[{a}]'
+        if ver != '1.0':
+            yield f'+({a})'
+            yield f'if ({a}) then 1 else 2'
+            yield f'some $x in ({a}) satisfies $x'
+            yield f'for $x in ({a}) return $x + 1'
+            for t in X.SINGLE_TYPES + ['xs:QName', 'xs:duration', 'xs:anyURI', 'xs:hexBinary', 'xs:integer?']:
+                yield f'({a}) cast as {t}'
+                yield f'({a}) castable as {t}'
+            for t in ['xs:integer', 'xs:string*', 'node()+', 'item()?', 'element()', 'empty-sequence()', 'xs:untypedAtomic']:
+                yield f'({a}) instance of {t}'
+                yield f'({a}) treat as {t}'
+        if ver >= '3.0':
+            yield f'({a})(1)'
+            yield f'({a})()'
+            yield f'({a}) ! position()'
+            yield f'let $x := ({a}) return $x'
+        if ver >= '3.1':
+            yield f'({a})?1'
+            yield f'({a})?*'
+            yield f'({a})?a'
+            yield f'({a}) => abs()'
+            yield f'({a}) => concat({a})'
+            yield f'map{{({a}): 1}}'
+            yield f'[({a})](1)'
 
 
 def _item(strings, source):
@@ -512,7 +608,7 @@ def history(draw):
                      st.sampled_from(['1', 'a/b', '1 + 2', 'count(a)', "concat('a', 'b')", '//a[1]', 'text()', '$v']))
     arrowish = st.sampled_from(['1 => abs()', '1 => abs(', '1 => ', '1 => (abs#1)(', "'a' => concat('b'", '1 => $f(', '1 => fn:abs(',
                                 '(1, 2) => count()', '1 => nope()', '1 => abs() =>', 'abs(', 'abs(1', 'count(a, b)', 'a[', 'a[1',
-                                '(: open', '(1', '1 +', "'open", 'for $x in', 'if (1) then', 'map{', '[1,', 'Q{u', '$', 'a/',
+                                '1 => (', '1 => (1 +', '1 => Q{', '1 => nope:x()', '1 => (abs#1', '1 => p:f(', '(: open', '(1', '1 +', "'open", 'for $x in', 'if (1) then', 'map{', '[1,', 'Q{u', '$', 'a/',
                                 '1 instance of', '1 cast as', 'function($x', 'let $x :=', 'some $x in a', 'a!', '#', '1 1'])
     bad = st.one_of(_mutated_string(ver, 2), X.random_string(20), arrowish, arrowish)
     steps = draw(st.lists(st.one_of(good, bad, bad), min_size=2, max_size=12))
@@ -561,9 +657,15 @@ def jobs(tier, seed):
     def add(chk, shards, n, **kw):
         for i in range(shards):
             out.append({'check': chk, 'shard': i, 'n': n, 'seed': derive_seed(seed, 'C03', chk, i), **kw})
+    for v, k in (('1.0', 1), ('2.0', 2), ('3.0', 2), ('3.1', 3)):
+        for i in range(k):
+            out.append({'check': 'callgrid', 'ver': v, 'part': i, 'parts': k})
+    for v, k in (('1.0', 1), ('2.0', 1), ('3.0', 2), ('3.1', 2)):
+        for i in range(k):
+            out.append({'check': 'opgrid', 'ver': v, 'part': i, 'parts': k})
     if q:
         add('grammar', 3, 500, depth=3, batch=8)
-        add('calls', 4, 500, batch=8)
+        add('calls', 3, 500, batch=8)
         add('mutated', 4, 600, depth=3, batch=8)
         add('random', 2, 700, batch=8)
         add('reuse', 2, 450)
@@ -582,15 +684,32 @@ def run_job(job, rec: Recorder):
     _limit_memory()
     chk = job['check']
     if chk == 'atheris':
-        from vp.checks import c03_atheris
+        from vp.gen import c03_atheris
         return c03_atheris.run(job, rec)
+    if chk in ('callgrid', 'opgrid'):
+        for case in _grid_cases(job):
+            rec.discs_of(chk, case, judge_batch(case, rec, chk))
+        return
     jd = _judge_for(chk)
     hyp_collect(_strategy(job), lambda case: rec.discs_of(chk, case, jd(case, rec)), job['n'], job['seed'], rec)
+
+
+def _grid_cases(job):
+    grid = call_grid if job['check'] == 'callgrid' else op_grid
+    for idx, s in enumerate(grid(job['ver'])):
+        if idx % job['parts'] == job['part']:
+            yield {'ver': job['ver'], 'items': [{'s': s, 'ctx': 'root', 'api': 'evaluate'}]}
 
 
 def shrink_job(job, bucket, budget):
     chk = job['check']
     if chk == 'atheris':
+        return None
+    if chk in ('callgrid', 'opgrid'):
+        for case in _grid_cases(job):
+            for d in judge_batch(case, None, chk):
+                if d.bucket == bucket:
+                    return case, d
         return None
     return hyp_shrink(_strategy(job), _judge_for(chk), bucket, job['n'], job['seed'], budget)
 
